@@ -37,6 +37,12 @@ CHECKS = {
     'C09': ('explicit-state BFS of a real CoroutineProcessor to fixpoint over start/kill/restart/process issued from outside and from inside bodies, lifecycle state machine model, generic reachability for release',
             'E1: fixed sets of scripted generators (runnable, waiting, finishing, killing themselves / others, starting others), every interleaving of start / kill / process / bad-argument calls to fixpoint; state(), promise value and reachability from the processor checked after every transition',
             'CPython semantics; restart of an already returned generator from inside bodies left out (unobservable order)', '3/C09'),
+    'C11': ('explicit-state BFS of a real ResourceMap (fixpoint for keys of depth <= 2, fixpoint / bounded depth for depth 3) against a nested-dict model with layers',
+            'E1: all histories of m[key]=value over the 14 keys of depth <= 3 x {handle, empty map, pre-populated map, pre-layered map}, clear() on root / sub-map, added handle layers; all 14 keys looked up through three access styles and all back-links checked in every state',
+            'CPython semantics; each value inserted once; coarse key drops dict order, order-preserving run to depth 3', '3/C11'),
+    'C15': ('bounded-exhaustive enumeration of world descriptions from an explicit grammar through five entry variants (dict, dict handle, file handle at root / composite key / explicit sub-map) against an independent description->world function',
+            'E3: every description of the grammar (<= 3 entities, <= 2 components, <= 2 processors, 13-value argument menu incl. the three reference forms, explicit / colliding ids), both entry points, handle at root and under a composite key; object_from_string on 13 dotted names',
+            'CPython semantics; in-memory modules registered in sys.modules by the harness; JSON files on tmpfs', '3/C15'),
 }
 
 NOT_YET = {p: 'check under construction (planned in DESIGN.md section 3); not claimed yet' for p in
